@@ -472,7 +472,9 @@ class InstGen:
         if k < 0.62:
             return {"t": "tuple", "v": [self.any_value(depth + 1) for _ in range(r.choice([0, 0, 1, 2]))]}
         if k < 0.66:
-            return {"t": "set", "frozen": r.random() < 0.5, "v": [I(r.randint(0, 5))] if r.random() < 0.3 else []}
+            pool = [I(0), I(1), I(5), I(-3), S("a"), S("b'\""), B(True), F(2.5), NONE, D("1.50"), Q("{u}q"),
+                    {"t": "tuple", "v": [I(1), S("t")]}, {"t": "tuple", "v": []}]
+            return {"t": "set", "frozen": r.random() < 0.5, "v": r.sample(pool, r.choice([0, 0, 1, 2, 3]))}
         if k < 0.74:
             return self.dict_value(depth + 1)
         if k < 0.80 and self.w.enums:
@@ -659,6 +661,8 @@ def cexpr(e):
         return f"(EList {clist(e['v'], cexpr, 'pyexpr')})"
     if t == "tuple":
         return f"(ETuple {clist(e['v'], cexpr, 'pyexpr')})"
+    if t == "set":
+        return f"(ESet {clist(e['v'], cexpr, 'pyexpr')})"
     if t == "dict":
         return f"(EDict {clist(e['v'], lambda p: f'({cexpr(p[0])}, {cexpr(p[1])})', '(pyexpr * pyexpr)')})"
     # anything outside the subset: a node no model output is equal to and that does not evaluate
@@ -746,6 +750,7 @@ class X:
             ["a", I(1)], ["inner", {"t": "obj", "c": [m1, ["Outer", "Inner"]], "kw": [["v", F(float("nan"))]]}],
             ["e", {"t": "enum", "c": [m1, ["Color"]], "m": "RED"}],
             ["any", {"t": "list", "v": [D("NaN"), Q("{u}l"), S("a'b\"c\\\n"), F(float("-inf")), {"t": "tuple", "v": []},
+                                        {"t": "tuple", "v": [I(1), S("x")]}, {"t": "set", "frozen": True, "v": [I(3)]},
                                         {"t": "dur", "v": [ord(c) for c in "P1Y\n"]},   # stripped by XmlDuration
                                         {"t": "dict", "v": [[S("k"), {"t": "bytes", "k": "hex", "v": [0, 39]}]]}]}]]}),
     ]
@@ -779,8 +784,7 @@ def size_of(v):
 
 
 # ------------------------------------------------------------------ the check
-CLASSES = [("class_array", "array-rendered-as-list"),
-           ("class_imports", "import-name-collision"),
+CLASSES = [("class_imports", "import-name-collision"),
            ("class_init", "init-false-field-not-default"),
            ("class_std", "stdlib-datetime-unqualified")]
 
